@@ -83,6 +83,7 @@ func rawExchangeP(addr string, reqBytes []byte, method string, timeout time.Dura
 			continue
 		}
 		out.Status, out.Header = code, h
+		progress(0) // the final header block is here
 		break
 	}
 	noBody := method == "HEAD" || out.Status == 204 || out.Status == 304 || (out.Status >= 100 && out.Status < 200)
